@@ -253,11 +253,25 @@ abort, and the decision is the pairing equation
 `(Σ ηⁱCᵢ − g·I(τ))·g2 = π·g2·Z(τ)`. -/
 theorem verifyMulti_wf [DecidableEq F] (g g2 τ : F) (a b : Nat) (comms pts : List F)
     (evals : List (List F)) (π η : F) (hnd : pts.Nodup) (ha : pts.length ≤ a)
-    (hb : pts.length + 1 ≤ b) (hev : evals ≠ []) :
+    (hb : pts.length + 1 ≤ b) (hev : evals ≠ [])
+    (hcl : comms.length = evals.length) (hrows : ∀ e ∈ evals, e.length = pts.length) :
     verifyMultiPoints ⟨PCV.powers g τ a, PCV.powers g2 τ b⟩ comms pts evals π η
       = .ok (decide ((dot comms (powersOf η evals.length) - g * interpAt pts evals η τ) * g2
             = π * (g2 * prodLin pts τ))) := by
   unfold verifyMultiPoints
+  have hguard : ¬ (pts.length ≥ (PCV.powers g2 τ b).length ∨ pts.length > (PCV.powers g τ a).length ∨
+      comms.length ≠ evals.length ∨ (evals.any fun e => decide (e.length ≠ pts.length)) = true) := by
+    rw [powers_length, powers_length]
+    intro hx
+    rcases hx with h1 | h1 | h1 | h1
+    · omega
+    · omega
+    · exact h1 hcl
+    · rw [List.any_eq_true] at h1
+      obtain ⟨e, he, hd⟩ := h1
+      exact (of_decide_eq_true hd) (hrows e he)
+  simp only
+  rw [if_neg hguard]
   have hany : (scaAll [] pts).any (fun s => decide (s = 0)) = false := by
     rw [List.any_eq_false]
     intro s hs
@@ -321,6 +335,7 @@ theorem verifyMulti_honest_iff [DecidableEq F] (g g2 τ : F) (D m a b : Nat) (ps
     (pts : List F) (claimed : List (List F)) (η π : F) (hps : ps ≠ [])
     (h : ∀ p ∈ ps, p.length ≤ D + 1) (hnd : pts.Nodup) (ha : pts.length ≤ a)
     (hb : pts.length + 1 ≤ b) (hcl : claimed.length = ps.length)
+    (hrows : ∀ e ∈ claimed, e.length = pts.length)
     (hπ : Time.batchOpenMultiPoints (CK.new g g2 τ D m) ps pts η = .ok π) :
     verifyMultiPoints ⟨PCV.powers g τ a, PCV.powers g2 τ b⟩
         (Time.batchCommit (CK.new g g2 τ D m) ps) pts claimed π η = .ok true
@@ -328,7 +343,8 @@ theorem verifyMulti_honest_iff [DecidableEq F] (g g2 τ : F) (D m a b : Nat) (ps
           - interpAt pts (ps.map (fun p => pts.map (evalPoly p))) η τ) = 0 := by
   have hcne : claimed ≠ [] := by
     intro hc; rw [hc] at hcl; exact hps (List.length_eq_zero_iff.1 hcl.symm)
-  rw [verifyMulti_wf g g2 τ a b _ pts claimed π η hnd ha hb hcne, time_batchCommit_new _ _ _ _ _ _ h,
+  rw [verifyMulti_wf g g2 τ a b _ pts claimed π η hnd ha hb hcne
+      (by unfold Time.batchCommit; simp [hcl]) hrows, time_batchCommit_new _ _ _ _ _ _ h,
     dot_map_mul_left, hcl]
   obtain ⟨q, r, hq, hrl, hspec⟩ := time_batchOpen_new g g2 τ D m ps pts η π hps h hπ
   -- the remainder and the η-combination of the true interpolants agree on the points, hence at τ
@@ -387,7 +403,7 @@ theorem vk_new_shape (g g2 τ : F) (D m : Nat) (hD : m ≤ D) (vk : VK F)
 theorem verifyMulti_new_iff [DecidableEq F] (g g2 τ : F) (D m : Nat) (ps : List (List F))
     (pts : List F) (claimed : List (List F)) (η π : F) (hps : ps ≠ [])
     (h : ∀ p ∈ ps, p.length ≤ D + 1) (hnd : pts.Nodup) (hm : pts.length ≤ m) (hD : m ≤ D)
-    (hcl : claimed.length = ps.length)
+    (hcl : claimed.length = ps.length) (hrows : ∀ e ∈ claimed, e.length = pts.length)
     (hπ : Time.batchOpenMultiPoints (CK.new g g2 τ D m) ps pts η = .ok π) (vk : VK F)
     (hvk : VK.ofTime (CK.new g g2 τ D m) = .ok vk
       ∨ VK.ofSpace (CKS.ofTime (CK.new g g2 τ D m)) = .ok vk) :
@@ -396,7 +412,7 @@ theorem verifyMulti_new_iff [DecidableEq F] (g g2 τ : F) (D m : Nat) (ps : List
           - interpAt pts (ps.map (fun p => pts.map (evalPoly p))) η τ) = 0 := by
   obtain ⟨a, ha, rfl⟩ := vk_new_shape g g2 τ D m hD vk hvk
   exact verifyMulti_honest_iff g g2 τ D m a (m + 1) ps pts claimed η π hps h hnd (by omega)
-    (by omega) hcl hπ
+    (by omega) hcl hrows hπ
 
 theorem verifyMulti_new_complete [DecidableEq F] (g g2 τ : F) (D m : Nat) (ps : List (List F))
     (pts : List F) (η π : F) (hps : ps ≠ [])
@@ -406,7 +422,8 @@ theorem verifyMulti_new_complete [DecidableEq F] (g g2 τ : F) (D m : Nat) (ps :
       ∨ VK.ofSpace (CKS.ofTime (CK.new g g2 τ D m)) = .ok vk) :
     verifyMultiPoints vk (Time.batchCommit (CK.new g g2 τ D m) ps) pts
       (ps.map (fun p => pts.map (evalPoly p))) π η = .ok true := by
-  rw [verifyMulti_new_iff g g2 τ D m ps pts _ η π hps h hnd hm hD (by simp) hπ vk hvk]
+  rw [verifyMulti_new_iff g g2 τ D m ps pts _ η π hps h hnd hm hD (by simp)
+    (by intro e he; obtain ⟨p, _, rfl⟩ := List.mem_map.1 he; simp) hπ vk hvk]
   ring
 
 /-! ### a changed evaluation is rejected -/
@@ -428,6 +445,30 @@ theorem bumpAt_length (es : List (List F)) (a b : Nat) (δ : F) :
   induction es generalizing a with
   | nil => rfl
   | cons e es ih => cases a <;> simp [bumpAt, ih]
+
+theorem bump_length (ys : List F) (j : Nat) (δ : F) : (bump ys j δ).length = ys.length := by
+  induction ys generalizing j with
+  | nil => rfl
+  | cons y ys ih => cases j <;> simp [bump, ih]
+
+theorem bumpAt_rows (es : List (List F)) (a b : Nat) (δ : F) (n : Nat)
+    (h : ∀ e ∈ es, e.length = n) : ∀ e ∈ bumpAt es a b δ, e.length = n := by
+  induction es generalizing a with
+  | nil => intro e he; simp [bumpAt] at he
+  | cons x xs ih =>
+    cases a with
+    | zero =>
+      intro e he
+      simp only [bumpAt, List.mem_cons] at he
+      rcases he with he | he
+      · rw [he, bump_length]; exact h x (by simp)
+      · exact h e (by simp [he])
+    | succ a =>
+      intro e he
+      simp only [bumpAt, List.mem_cons] at he
+      rcases he with he | he
+      · rw [he]; exact h x (by simp)
+      · exact ih a (fun e' he' => h e' (by simp [he'])) e he
 
 theorem isum_bump (ss : List F) (ls : List (List F)) (ys : List F) (j : Nat) (δ x : F)
     (hj : j < ys.length) :
@@ -526,7 +567,9 @@ theorem verifyMulti_new_reject [DecidableEq F] (g g2 τ : F) (D m : Nat) (ps : L
       (bumpAt (ps.map (fun p => pts.map (evalPoly p))) a b δ) π η = .ok false := by
   have hiff := verifyMulti_new_iff g g2 τ D m ps pts
     (bumpAt (ps.map (fun p => pts.map (evalPoly p))) a b δ) η π hps h hnd hm hD
-    (by rw [bumpAt_length]; simp) hπ vk hvk
+    (by rw [bumpAt_length]; simp)
+    (bumpAt_rows _ a b δ pts.length
+      (by intro e he; obtain ⟨p, _, rfl⟩ := List.mem_map.1 he; simp)) hπ vk hvk
   obtain ⟨k, hk, rfl⟩ := vk_new_shape g g2 τ D m hD vk hvk
   have hne : (bumpAt (ps.map (fun p => pts.map (evalPoly p))) a b δ) ≠ [] := by
     intro hc
@@ -534,7 +577,10 @@ theorem verifyMulti_new_reject [DecidableEq F] (g g2 τ : F) (D m : Nat) (ps : L
     rw [hc] at this
     simp at this
     exact hps (List.length_eq_zero_iff.1 this.symm)
-  rw [verifyMulti_wf g g2 τ k (m + 1) _ pts _ π η hnd (by omega) (by omega) hne] at hiff ⊢
+  rw [verifyMulti_wf g g2 τ k (m + 1) _ pts _ π η hnd (by omega) (by omega) hne
+    (by unfold Time.batchCommit; rw [bumpAt_length]; simp)
+    (bumpAt_rows _ a b δ pts.length
+      (by intro e he; obtain ⟨p, _, rfl⟩ := List.mem_map.1 he; simp))] at hiff ⊢
   simp only [Except.ok.injEq, decide_eq_true_eq] at hiff
   simp only [Except.ok.injEq, decide_eq_false_iff_not]
   intro hP
@@ -542,6 +588,25 @@ theorem verifyMulti_new_reject [DecidableEq F] (g g2 τ : F) (D m : Nat) (ps : L
   have hdiff := interpAt_bump_ne pts (ps.map (fun p => pts.map (evalPoly p))) η τ δ a b
     (by simpa using ha) (by simp [List.getD, ha]; exact hb) hb hnd hτ hη hδ
   exact (mul_ne_zero (mul_ne_zero hg hg2) hdiff) hz
+
+/-- **More points than the key supports** (or evaluation tables that do not match the commitments and the
+points) are refused — a rejection, never an acceptance — whatever the proof and the claimed values
+(fix D20: the verifier's MSMs would otherwise truncate the vanishing polynomial and the interpolant, and
+the truncated equation has solutions with false evaluations). -/
+theorem verifyMulti_out_of_shape_refused [DecidableEq F] (vk : VK F) (comms pts : List F)
+    (evals : List (List F)) (π η : F)
+    (h : pts.length ≥ vk.powersOfG2.length ∨ pts.length > vk.powersOfG.length ∨
+      comms.length ≠ evals.length ∨ ∃ e ∈ evals, e.length ≠ pts.length) :
+    verifyMultiPoints vk comms pts evals π η = .ok false := by
+  unfold verifyMultiPoints
+  rw [if_pos]
+  rcases h with h | h | h | ⟨e, he, hne⟩
+  · exact Or.inl h
+  · exact Or.inr (Or.inl h)
+  · exact Or.inr (Or.inr (Or.inl h))
+  · refine Or.inr (Or.inr (Or.inr ?_))
+    rw [List.any_eq_true]
+    exact ⟨e, he, decide_eq_true hne⟩
 
 end SKZG
 end PCV
